@@ -198,6 +198,15 @@ def aspaUpdateExisting (s : AspaDefs) (holdsAsn : Nat → Bool) (c : Nat) (u : P
   | .ok true => .ok [.updated c u]
   | .ok false => .ok []
 
+/-- One ASPA update request: the update and the AS numbers held at that moment. -/
+structure AspaReq where
+  holdsAsn : Nat → Bool
+  upd      : AspaUpdates
+
+/-- The definitions after a history of update requests. -/
+def runAspa (s0 : AspaDefs) (h : List AspaReq) : AspaDefs :=
+  h.foldl (fun s q => aspaCommand s q.holdsAsn q.upd) s0
+
 namespace Spec
 
 /-- A removal is bad when there is no definition for the customer, or an earlier removal of
